@@ -98,6 +98,51 @@ def compiled_patterns():
     return out
 
 
+def _brackets_by_behaviour():
+    """what `split_req_bracket_notation` makes of each bracket in front of, and behind, a version: asked of the function
+    itself (where the tables live and what they are called is nobody's business); sorted by the bracket"""
+    try:
+        from univers.version_range import split_req_bracket_notation as f
+    except Exception:  # noqa: BLE001
+        return None, None
+    front, rear = {}, {}
+    for ch in "([{<)]}>":
+        try:
+            c, v = f(ch + "1.0")
+            if v == "1.0":
+                front[ch] = c
+        except Exception:  # noqa: BLE001
+            pass
+        try:
+            c, v = f("1.0" + ch)
+            if v == "1.0" and ch not in front:
+                rear[ch] = c
+        except Exception:  # noqa: BLE001
+            pass
+    if not front and not rear:
+        return None, None
+    return dict(sorted(front.items())), dict(sorted(rear.items()))
+
+
+def _legacy_bases_by_behaviour():
+    """the legacy OpenSSL bases the validity check knows, found by asking it (the table moved or was renamed)"""
+    try:
+        from univers.versions import LegacyOpensslVersion as L
+    except Exception:  # noqa: BLE001
+        return ()
+    out = []
+    for a in range(0, 4):
+        for b in range(0, 10):
+            for c in range(0, 10):
+                t = "%d.%d.%d" % (a, b, c)
+                try:
+                    if L.is_valid(t):
+                        out.append(t)
+                except Exception:  # noqa: BLE001
+                    pass
+    return tuple(out)
+
+
 def generate():
     gentoo = ast.parse(_src("gentoo.py"))
     maven = ast.parse(_src("maven.py"))
@@ -107,10 +152,20 @@ def generate():
     suffix_value = _literal_assign(gentoo, "suffix_value") or {}
     qualifiers = _literal_assign(maven, "QUALIFIERS") or []
     aliases = _literal_assign(maven, "ALIASES") or {}
+    if isinstance(aliases, dict):
+        aliases = dict(sorted(aliases.items()))      # a lookup table: its order says nothing
+    if not qualifiers:
+        try:
+            from univers import maven as _m
+            qualifiers = list(getattr(_m, "QUALIFIERS", []))
+        except Exception:  # noqa: BLE001
+            qualifiers = []
     chars = _literal_assign(debian, "characters_order") or {}
-    bases = _literal_assign(versions, "all_legacy_base") or ()
-    front = _literal_assign(vrange, "comparators_front") or {}
-    rear = _literal_assign(vrange, "comparators_rear") or {}
+    bases = _literal_assign(versions, "all_legacy_base") or _legacy_bases_by_behaviour()
+    front, rear = _brackets_by_behaviour()
+    if front is None:
+        front = _literal_assign(vrange, "comparators_front") or {}
+        rear = _literal_assign(vrange, "comparators_rear") or {}
     deb_ops = _dict_keys(debian, "operators") or []
     sites = regex_sites()
     comp = compiled_patterns()
